@@ -158,7 +158,12 @@ class BasePath(safe_str.safe_string):
 
     def split(self):
         # This is guaranteed to work since `suffix` is normalized.
-        return self.suffix.split(posixpath.sep) if self.suffix else []
+        bits = self.suffix.split(posixpath.sep) if self.suffix else []
+        if len(bits) > 1 and bits[-1] == '':
+            # The root directory itself (`/` or `C:/`) has no components
+            # below the root marker.
+            bits.pop()
+        return bits
 
     def basename(self):
         return posixpath.basename(self.suffix)
